@@ -42,6 +42,8 @@ def _base_configs():
     c.append(dict(tag="age-then-flash-heat", phases=[ph], D=1e-15, se=3e-3, retemp=[1000, 1100], calls=[(0.0812, 0.02), (0.016, 0.05)], iter="euler"))
     c.append(dict(tag="age-then-flash-heat-rk4-2ph", phases=[ph, dict(name="gamma", gamma=0.055, xe0=0.004, xb=0.3)], D=1e-15, se=3e-3, retemp=[1000, 1100],
                   calls=[(0.0812, 0.02), (0.016, 0.05)], iter="rk4"))
+    c.append(dict(tag="load-dissolve-refine-at-maxbins", phases=[ph], D=1e-16, x0=0.004, load=[(4e-10, 8e-10, 1e18)], pbm=(1e-10, 5e-9, 200, 100, 200, True),
+                  calls=[(20.0, 0.02), (20.0, 0.02)], iter="euler"))
     c.append(dict(tag="ramp-constructor", phases=[ph], D=1e-16, se=1e-5, temp=("array", [0, H(300.0)], [1000, 1010]), temp_via="constructor",
                   calls=[(300.0, 0.01)], iter="euler"))
     c.append(dict(tag="function-constructor", phases=[ph], D=1e-16, se=1e-5, temp=("function", [0, H(300.0)], [1000, 990]), temp_via="constructor",
